@@ -306,3 +306,28 @@ def translated_vs_python(run: lib.Run, mod, facts: dict, wide: bool = False) -> 
                                                   f"attributes / result under the same scripted outcomes"})
     run.evaluations += len(cases)
     return bad == 0, f"{bad} of {len(cases)} evaluations differ" if bad else f"agree on {len(cases)} evaluations"
+
+
+def _tuples(v):
+    if isinstance(v, list):
+        return tuple(_tuples(x) for x in v)
+    if isinstance(v, dict):
+        return {k: _tuples(x) for k, x in v.items()}
+    return v
+
+
+def replay_case(mod, c: dict) -> int:
+    """re-run one recorded comparison (a replay file stores tuples as lists: turned back)"""
+    case = dict(c["case"])
+    case["fields"] = {k: _tuples(v) for k, v in case.get("fields", {}).items()}
+    case["script"] = [(o[0], o[1] if o[0] in ("raised", "stat") else _tuples(o[1])) if len(o) > 1 else tuple(o) for o in case["script"]]
+    p = subprocess.run(["lake", "env", "lean", "--run", "Rbacx/Run/SrcEvalFileStore.lean"], cwd=lib.LEAN, input=lean_line(case) + "\n",
+                       capture_output=True, text=True, timeout=600)
+    have = lean_result(json.loads(p.stdout.strip().split("\n")[0])) if p.returncode == 0 and p.stdout.strip() else {"error": (p.stderr or p.stdout)[-400:]}
+    want = run_real(mod, case)
+    if not case["fn"].startswith("FilePolicySource"):
+        want["fields"] = {}
+    print("function:", case["fn"], "| script:", case["script"])
+    print("real function :", json.dumps(want, default=str)[:1200])
+    print("translation   :", json.dumps(have, default=str)[:1200])
+    return 1 if have != want else 0
